@@ -152,17 +152,30 @@ func exContext(e *exEnv) *generator.Context {
 	return c
 }
 
+// asPackage hands the executor the library's own generator.DefaultPackage for every other target (no FilterFunc for a
+// target that accepts every type: the default filter) instead of the harness's Package implementation
+func asPackage(p exPkg, i int) generator.Package {
+	if i%2 == 1 {
+		return p
+	}
+	d := &generator.DefaultPackage{PackageName: p.Name(), PackagePath: p.Path(), Source: p.SourcePath(), HeaderText: p.Header(""), GeneratorFunc: p.Generators}
+	if len(p.t.Accept) < len(p.e.ids) {
+		d.FilterFunc = p.Filter
+	}
+	return d
+}
+
 func execImpl() common.ExecImpl {
 	return common.ExecImpl{
 		RunTarget: func(cfg *common.ExecConfig, i int, root string, rec *common.ExecRecorder) error {
 			e := newExEnv(cfg, rec)
-			return exContext(e).ExecutePackage(root, exPkg{e, cfg.Targets[i]})
+			return exContext(e).ExecutePackage(root, asPackage(exPkg{e, cfg.Targets[i]}, i))
 		},
 		RunAll: func(cfg *common.ExecConfig, root string) error {
 			e := newExEnv(cfg, &common.ExecRecorder{})
 			var pkgs generator.Packages
-			for _, t := range cfg.Targets {
-				pkgs = append(pkgs, exPkg{e, t})
+			for i, t := range cfg.Targets {
+				pkgs = append(pkgs, asPackage(exPkg{e, t}, i))
 			}
 			return exContext(e).ExecutePackages(root, pkgs)
 		},
